@@ -11,6 +11,7 @@ and a Dijkstra certificate evaluated after every run_routing_forward.
 """
 from __future__ import annotations
 
+import os
 import random
 
 from vt import gen, monitor as M
@@ -73,8 +74,10 @@ def floors(tier):
 
 
 def setup(ctx):
-    G.install_pop_monitor()
-    G.install_forward_certificate()
+    # VT_C06_MONITORS=0 is for validating the API-level oracle on its own (the floors then make the run inconclusive)
+    if os.environ.get("VT_C06_MONITORS", "1") != "0":
+        G.install_pop_monitor()
+        G.install_forward_certificate()
 
 
 # --------------------------------------------------------------------------
